@@ -1,0 +1,10 @@
+//go:build !verif
+// +build !verif
+
+package transport
+
+import "net"
+
+// verifC11OnWrite is a verification hook point in the send goroutine just before the write; without the
+// build tag verif it is an empty function that the compiler inlines away.
+func verifC11OnWrite(*connection, net.Conn, []byte) {}
